@@ -437,6 +437,8 @@ func TestMutate(t *testing.T) {
 // ---------------------------------------------------------------------------
 // lane 4: arbitrary url.Values
 
+var keyPunct = []string{".", "[", "]", "[]", "][", "]]", "[[", "[0]", "..", "/", ":", "%", "%5B", "%5D", " ", "+", "-", "_", "*", "$", "#", "&", "=", "?", "(", ")", "{", "}", "!", "@", "\\", "'", "\""}
+
 func TestQuery(t *testing.T) {
 	r := vf.Start(t, prop, "query")
 	s, err := fixed()
@@ -452,12 +454,18 @@ func TestQuery(t *testing.T) {
 	vals := []string{"", "x", "0", "-1", "1.5", "true", "null", "{}", "[]", "{", `{"leafName":"x"}`, `{"leafName":null}`, `{"!type":"leaf"}`, ` {"next":{}}`, "2020-01-01", "AQID", "RED", "COLOR_RED", "99999999999999999999", "\x00", "\xff", "1e100000000", "1e-100000000", `{"pDecimal":"1e100000000"}`}
 	rapid.Check(t, func(t *rapid.T) {
 		q := map[string][]string{}
+		qclass := "plain-key"
 		n := rapid.IntRange(0, 4).Draw(t, "nkeys")
 		for i := 0; i < n; i++ {
 			var key string
-			switch rapid.IntRange(0, 3).Draw(t, "keykind") {
+			switch rapid.IntRange(0, 4).Draw(t, "keykind") {
 			case 0:
 				key = rapid.String().Draw(t, "anykey")
+			case 4:
+				// path punctuation other dialects of query strings use, balanced or not
+				toks := rapid.SliceOfN(rapid.OneOf(rapid.SampledFrom(names), rapid.SampledFrom(keyPunct)), 1, 6).Draw(t, "keytoks")
+				key = strings.Join(toks, "")
+				qclass = "punct-key"
 			case 1:
 				parts := rapid.SliceOfN(rapid.SampledFrom(names), 1, 3).Draw(t, "path")
 				key = strings.Join(parts, ".")
@@ -468,7 +476,7 @@ func TestQuery(t *testing.T) {
 		}
 		root := rapid.SampledFrom([]string{"All", "All", "All", "Rec", "Wrap", "Leaf"}).Draw(t, "root")
 		c := docCase{Root: fixschema.Pkg + "." + root, Query: q}
-		r.Eval(len(q) > 0, vf.Hash(c.Root, q), fmt.Sprintf("keys:%d", len(q)))
+		r.Eval(len(q) > 0, vf.Hash(c.Root, q), fmt.Sprintf("keys:%d", len(q)), qclass)
 		if len(q) > 1 && r.WantSample() {
 			r.Sample(c)
 		}
